@@ -2,6 +2,10 @@
 //! (one per line) and prints one canonical result line per case.
 mod util;
 mod pure;
+mod total;
+
+#[global_allocator]
+static ALLOC: total::Counting = total::Counting;
 
 fn main() {
     let args: Vec<String> = std::env::args().collect();
@@ -10,6 +14,8 @@ fn main() {
         "layout" => pure::layout(),
         "decode" => pure::decode(),
         "load" => pure::load(),
+        "total" => total::parent(&args[2], args[3].parse().unwrap()),
+        "total-child" => total::child(),
         "hex" => pure::hexdigest(),
         "sha1" => pure::sha1(),
         _ => {
